@@ -23,7 +23,8 @@ from io import StringIO
 from os import getcwd
 from typing import Optional, TYPE_CHECKING
 
-from humanfriendly.terminal import terminal_supports_colors, ansi_wrap, auto_encode
+from humanfriendly.terminal import terminal_supports_colors, ansi_wrap
+from humanfriendly.text import format as format_text
 from humanfriendly.terminal.spinners import Spinner
 
 if TYPE_CHECKING:
@@ -31,6 +32,19 @@ if TYPE_CHECKING:
 
 _DETAIL_INDENT = "    "
 _ERASE_LINE = "\r\x1b[2K"
+
+
+def auto_encode(stream, text, *args, **kw):
+    """Render the text and write it to the stream. Characters the stream cannot encode,
+       for instance the non-ASCII output of a build script when ReBench runs in the
+       C locale, are written as escape sequences. (humanfriendly's auto_encode writes
+       bytes in that case, which a text stream rejects with a TypeError.)"""
+    text = format_text(text, *args, **kw)
+    try:
+        stream.write(text)
+    except UnicodeEncodeError:
+        encoding = getattr(stream, "encoding", None) or "ascii"
+        stream.write(text.encode(encoding, errors="backslashreplace").decode(encoding))
 
 
 def escape_braces(string):
